@@ -331,6 +331,11 @@ def ob_crash_image(ex, name, U=2, HU=2, N=2, mode="kill", sync_mode="sync"):
                         has = z3.And(has, z3.Implies(hk[i] == h, intact))
                     dang.append(z3.Implies(pk[i], has))
                 posts["every key of the recovered map has its (intact) blob"] = z3.And(dang)
+                # the start image assumes EVERY file under cas/ (orphans included) to hold its complete content - a later
+                # put of the same content may rely on it - so every cut must re-establish that (inductive invariant)
+                if img.blob_intact:
+                    posts["every file under cas/ holds its complete content (orphans included)"] = z3.And(
+                        [z3.Implies(z3.Select(img.blobs, h), intact) for (h, intact, n) in img.blob_intact.values()])
                 if last and acked:
                     posts["an acknowledged operation is in the recovered map"] = eq1
                 if last and f.status == "returned":
